@@ -42,7 +42,9 @@ def gen_rx_case(rng):
     a, _ = rand_inst_pair(rng)
     Tms = rng.choice(TIMEOUTS)
     T = ms_to_ns(Tms)
-    p = {'rx_consecutive_frame_timeout': Tms, 'blocksize': rng.choice([0, 1, 2, 8]), 'stmin': 0, 'max_frame_size': 4095}
+    p = {'rx_consecutive_frame_timeout': Tms, 'blocksize': rng.choice([0, 1, 2, 3, 8]), 'stmin': 0, 'max_frame_size': 4095}
+    if rng.random() < 0.3:
+        p['listen_mode'] = True        # a listener abandons a reception after the same deadline
     inst = dict(a, params=p)
     rid, ext, pfx = reach(inst)
     n = rng.choice([20, 40, 100])
@@ -91,12 +93,19 @@ def gen_tx_case(rng):
     p = {'rx_flowcontrol_timeout': Tms, 'wftmax': wft, 'stmin': 0}
     inst = dict(a, params=p)
     rid, ext, pfx = reach(inst)
-    where = rng.choice(['after_ff', 'after_block', 'after_wait'] if wft else ['after_ff', 'after_block'])
+    where = rng.choice(['after_ff', 'after_block', 'after_wait', 'after_standby'] if wft else ['after_ff', 'after_block', 'after_standby'])
+    if where == 'after_standby':
+        # the rate limiter holds the First Frame back: the deadline runs from its emission, not from its construction
+        p.update(rate_limit_enable=True, rate_limit_max_bitrate=64 * 8, rate_limit_window_size=0.125)
     d = rng.choice(deltas(T))
     late = rng.random() < 0.5
     gap = T + d if late else max(0, T - d)
     fc = lambda st, bs: [0, 'rx', rid, int(ext), hx(pfx + bytes([0x30 | st, bs, 0]))]
     ops = [[0, 'send', None, hx(bytes(range(60)))], [0, 'proc', 1, 1]]
+    if where == 'after_standby':
+        hold = rng.choice([T // 2, T - 1, T + 5, 3 * T]) + 125 * 10**6 + 1
+        ops = [[0, 'send', None, hx(bytes([1, 2, 3]))], [0, 'proc', 1, 1], [0, 'send', None, hx(bytes(range(60)))], [0, 'proc', 1, 1],
+               [0, 'tick', hold], [0, 'proc', 1, 1]]
     if where == 'after_block':
         ops += [fc(0, 2), [0, 'proc', 1, 1], [0, 'proc', 1, 1]]
     elif where == 'after_wait':
@@ -122,6 +131,9 @@ def oracle_tx(case, lines, insts):
     errs = [e[4:] for l in head for e in split_line(l)[0] if e.startswith('err:')]
     done = [e for l in head for e in split_line(l)[0] if e.startswith('done:')]
     nto = errs.count('FlowControlTimeoutError')
+    if case['where'] == 'after_standby':
+        done = [d for d in done if d != 'done:0:1']      # request 0 is the single frame that used up the budget
+        done = ['done:0:' + d.split(':')[2] for d in done]
     if case['late']:
         if nto != 1 or done != ['done:0:0']:
             fails.append(('C07:missed-flow-control-timeout', '%s: gap %d ns > T=%d ms, then %s: %d timeout errors, completions %s, errors %s' % (
